@@ -815,3 +815,5 @@ def run(ctx):
     r4(ctx)
     r5(ctx)
     r6(ctx)
+    from .c02 import r5 as rebuilders_keep_the_marker
+    rebuilders_keep_the_marker(ctx, rule="C08.R7")
